@@ -613,6 +613,57 @@ func c01Counter(p *core.Program, r *core.Report) {
 		}
 	}
 	if bufField == "" {
+		// the store is a plain byte slice and Size() is its length: there is no second quantity to keep
+		// in step with the bytes (every append is counted by construction)
+		if st, ok := outT.Underlying().(*types.Struct); ok {
+			for i := 0; i < st.NumFields(); i++ {
+				if !isByteSlice(st.Field(i).Type()) {
+					continue
+				}
+				fname := st.Field(i).Name()
+				sz := p.Method("io", "DataOutputX", "Size")
+				if sz == nil || sz.Decl.Body == nil || len(sz.Decl.Body.List) != 1 {
+					continue
+				}
+				rs, ok := sz.Decl.Body.List[0].(*ast.ReturnStmt)
+				if !ok || len(rs.Results) != 1 {
+					continue
+				}
+				want := "len(" + recvName(sz) + "." + fname + ")"
+				got := stripSpaces(types.ExprString(stripConvs(sz.Pkg.TypesInfo, rs.Results[0])))
+				if got != want {
+					continue
+				}
+				n := 0
+				for _, fi := range p.MethodsOf(outT) {
+					if fi.Decl.Body == nil {
+						continue
+					}
+					writes := false
+					ast.Inspect(fi.Decl.Body, func(m ast.Node) bool {
+						if as, ok := m.(*ast.AssignStmt); ok {
+							for _, l := range as.Lhs {
+								if sel, ok := ast.Unparen(l).(*ast.SelectorExpr); ok && sel.Sel.Name == fname {
+									writes = true
+								}
+							}
+						}
+						return true
+					})
+					if writes {
+						n++
+						r.OK("C01.counter", core.FuncName(fi.Obj), p.Pos(fi.Decl.Pos()), "the count is the length of the byte store itself")
+					}
+				}
+				if n > 0 {
+					r.OK("C01.counter", "io.(*DataOutputX).Size", p.Pos(sz.Decl.Pos()), "Size() is len of the store")
+					for k := n + 1; k < 5; k++ {
+						r.OK("C01.counter", fmt.Sprintf("io.DataOutputX store #%d", k), "-", "no separate counter exists")
+					}
+					return
+				}
+			}
+		}
 		r.Undec("C01.counter", "io.DataOutputX", "-", "no bytes.Buffer behind DataOutputX")
 		return
 	}
